@@ -46,6 +46,49 @@ def _passes_on_all_paths(f, start, pred):
     return True
 
 
+def _on_all_paths_before(f, node, pred):
+    """True if every CFG path from the entry to `node` passes an element satisfying pred."""
+    from engine.cfg import forward, state_before, TOP
+    cfg = f.cfg()
+    tr = lambda st, e, b: (st | {"hit"}) if pred(e) else st
+    ins, _ = forward(cfg, frozenset(), tr)
+    st = state_before(cfg, ins, tr, node)
+    return st is not TOP and "hit" in st
+
+
+def id_wrappers(E):
+    """{usr: (param index, records)}: helpers whose result is get_id_for_type(<their parameter>); `records` when
+    record_type_as_referenced(<that parameter>) is passed on every path through the helper."""
+    out = {}
+    for g in E.writer_funcs():
+        if g.cfg() is None:
+            continue
+        rets = [n for n in g.nodes() if n["k"] == "ReturnStmt" and n.get("c")]
+        if len(rets) != 1:
+            continue
+        v = strip_casts(rets[0]["c"][0])
+        while v is not None:
+            if v["k"] in ("CXXConstructExpr", "CXXBindTemporaryExpr", "MaterializeTemporaryExpr",
+                          "ExprWithCleanups", "ImplicitCastExpr") and v.get("c"):
+                v = strip_casts(v["c"][0])
+            elif v["k"] == "CXXMemberCallExpr" and (g.decl(v) or {}).get("n", "").startswith("operator "):
+                v = strip_casts(member_call_object(v))     # interned_string -> std::string conversion
+            else:
+                break
+        if v is None or v["k"] != "CXXMemberCallExpr" or (g.decl(v) or {}).get("n") != "get_id_for_type":
+            continue
+        a = strip_casts(call_args(v)[0])
+        if a is None or a["k"] != "DeclRefExpr" or a.get("d") not in g.r["params"]:
+            continue
+        k = g.r["params"].index(a["d"])
+        pname = expr_str(g, a)
+        rec = _on_all_paths_before(g, rets[0], lambda e: e["k"] == "CXXMemberCallExpr" and
+                                   (g.decl(e) or {}).get("n") == "record_type_as_referenced" and
+                                   expr_str(g, call_args(e)[0]) == pname)
+        out[g.u] = (k, rec, g.n)
+    return out
+
+
 def run(ctx, P):
     with open(os.path.join(TABLES, "idref_exceptions.json")) as fh:
         tbl = json.load(fh)
@@ -54,8 +97,17 @@ def run(ctx, P):
     E = Esc(ctx, P)
     n_ref = n_def = 0
     used_exc = set()
+    idw = id_wrappers(E)
+    for u, (k, rec, nm) in idw.items():
+        ctx.note("R-IDREF: %s(...) summarised as get_id_for_type(parameter #%d)%s" % (
+            nm, k, " + record_type_as_referenced" if rec else ""))
     for f in sorted(E.writer_funcs(), key=lambda x: (x.l0, x.q)):
+        if f.u in idw:
+            continue
         gets = [n for n in f.nodes() if n["k"] == "CXXMemberCallExpr" and (f.decl(n) or {}).get("n") == "get_id_for_type"]
+        wcalls = {n["i"]: idw[(f.decl(n) or {}).get("u")] for n in f.nodes()
+                  if n["k"] == "CallExpr" and (f.decl(n) or {}).get("u") in idw}
+        gets += [n for n in f.nodes() if n["i"] in wcalls]
         if not gets or f.cfg() is None:
             continue
         # ordered stream operands with the attribute name that precedes each
@@ -97,14 +149,15 @@ def run(ctx, P):
             last_attr = None if last_attr else last_attr
         ctx.analysed(f)
         for g in gets:
-            x = call_args(g)[0]
+            x = call_args(g)[wcalls[g["i"]][0]] if g["i"] in wcalls else call_args(g)[0]
             xs = expr_str(f, x)
             # where does the id go?
             attr = "?"
             p = f.parent(g)
             # climb conversions
             node = g
-            while p is not None and p["k"] in ("CXXMemberCallExpr", "MemberExpr", "CXXConstructExpr", "CXXFunctionalCastExpr") \
+            while p is not None and p["k"] in ("CXXMemberCallExpr", "MemberExpr", "CXXConstructExpr", "CXXFunctionalCastExpr",
+                                               "CXXBindTemporaryExpr", "MaterializeTemporaryExpr") \
                     and not (p["k"] == "CXXMemberCallExpr" and (f.decl(p) or {}).get("n") == "get_id_for_type"):
                 node, p = p, f.parent(p)
             if p is not None and p["k"] == "CXXOperatorCallExpr" and p.get("op") == "<<" and p["i"] in attr_of:
@@ -169,7 +222,8 @@ def run(ctx, P):
             def is_ref(e):
                 return e["k"] == "CXXMemberCallExpr" and (f.decl(e) or {}).get("n") == "record_type_as_referenced" \
                     and expr_str(f, call_args(e)[0]) == xs
-            ok = _passes_on_all_paths(f, g, is_ref)
+            ok = _passes_on_all_paths(f, g, is_ref) or _on_all_paths_before(f, g, is_ref) or \
+                (g["i"] in wcalls and wcalls[g["i"]][1])
             ent = "%s: %s='%s'" % (f.n, attr, xs)
             if not ok and (f.n, attr) in exc:
                 used_exc.add((f.n, attr))
@@ -177,7 +231,7 @@ def run(ctx, P):
                 ctx.ob("R-IDREF/REF", ent + " [listed exception]", True, f.loc(g), exc[(f.n, attr)]["reason"])
                 continue
             ctx.ob("R-IDREF/REF", ent, ok, f.loc(g),
-                   "reference to the id of `%s` is followed by record_type_as_referenced(%s) on every path" % (xs, xs)
+                   "reference to the id of `%s` is accompanied by record_type_as_referenced(%s) on every path" % (xs, xs)
                    if ok else "type-id of `%s` is written as a reference (%s=) but record_type_as_referenced(%s) "
                    "is missing on some path: the referenced type may never be emitted" % (xs, attr, xs))
     for k in exc:
